@@ -375,6 +375,21 @@ func evalImport(c ImportCase) (problems []string) {
 		bad("`migrate import` exited 0 and wrote no migration file")
 		return
 	}
+	// nothing is left out: every step's statement arrives exactly once (a flyway baseline replaces
+	// the versioned files up to its own version, which here is the first one).
+	all := ""
+	for _, n := range sqlNames(dst) {
+		all += dst[n]
+	}
+	for i := range c.Versions {
+		want := 1
+		if c.Extra == "baseline" && i == 0 {
+			want = 0
+		}
+		if got := strings.Count(all, fmt.Sprintf("CREATE TABLE t%d ", i+1)); got != want {
+			bad("the statement of step %d (version %s) occurs %d time(s) in the imported directory %v, want %d", i+1, c.Versions[i], got, sqlNames(dst), want)
+		}
+	}
 	v := wk.Run(nil, "migrate", "validate", "--dir", "file://"+wk.Path("dst"))
 	var libErr error
 	if ld, err := migrate.NewLocalDir(wk.Path("dst")); err == nil {
